@@ -2,6 +2,7 @@ package main
 
 import (
 	"bytes"
+	"crypto/x509"
 	"crypto"
 	"crypto/dsa"
 	"crypto/ecdsa"
@@ -25,6 +26,8 @@ import (
 	"github.com/Cloud-Foundations/keymaster/keymasterd/eventnotifier"
 	"github.com/Cloud-Foundations/keymaster/lib/instrumentedwriter"
 	"github.com/Cloud-Foundations/keymaster/lib/webapi/v0/proto"
+	"golang.org/x/crypto/openpgp"
+	"golang.org/x/crypto/openpgp/armor"
 	"golang.org/x/crypto/ssh"
 )
 
@@ -34,6 +37,11 @@ import (
 //	                                    -> <ok|badRe|unparseable|weak|internal> <what ssh.ParseAuthorizedKey made of it: kind:bits:e | none>
 //	s certgen <type> <ed25519 CA 0|1> <hex key file>
 //	                                    real certGenHandler, authenticated POST -> <status>
+//	s cfgcertgen <type> <ed25519 CA 0|1> <hex key file>
+//	                                    the same request on a state built the way the daemon builds it: configuration
+//	                                    file (with base.ed25519_ca_keyfilename pointing at a sealed Ed25519 key when
+//	                                    asked) read by the real loadVerifyConfigFile, signers loaded by the real
+//	                                    unsealCA / loadSignersFromPemData -> <status>
 //	s serve <dir> <ed25519 CA 0|1> <max seconds>
 //	                                    TLS server with the real login and certgen handlers for the client
 //	                                    harness process; writes <dir>/addr and <dir>/ca.pem, runs until
@@ -145,8 +153,25 @@ func TestVerifC19(t *testing.T) {
 			}
 			setCA(f[2])
 			vio.emit("%d", vfC19Certgen(t, state, f[1], s))
+		case f[0] == "cfgcertgen" && len(f) == 4:
+			s, ok := vfUnhex(f[3])
+			if !ok {
+				vio.emit("bad-op")
+				continue
+			}
+			st, err := vfC19LoadedState(t, f[2] == "1")
+			if err != nil {
+				vio.emit("load-error %s", strings.Join(strings.Fields(err.Error()), "_"))
+				continue
+			}
+			vio.emit("%d", vfC19Certgen(t, st, f[1], s))
 		case f[0] == "serve" && len(f) == 4:
 			setCA(f[2])
+			if st, err := vfC19LoadedState(t, f[2] == "1"); err == nil {
+				state = st // the client talks to a server configured and unsealed like the daemon
+			} else {
+				t.Logf("loader-built state unavailable, serving the hand-built one: %v", err)
+			}
 			maxSecs, _ := strconv.Atoi(f[3])
 			var logins, ok200, other int64
 			mux := http.NewServeMux()
@@ -198,4 +223,56 @@ type vfStatusWriter struct {
 func (w *vfStatusWriter) WriteHeader(code int) {
 	w.code = code
 	w.ResponseWriter.WriteHeader(code)
+}
+
+// vfC19LoadedState: configuration file + real loader + real unseal; with an Ed25519 CA the operator
+// configured (a PKCS#8 Ed25519 key sealed with the same passphrase as the main CA key).
+func vfC19LoadedState(t *testing.T, withEd25519CA bool) (*RuntimeState, error) {
+	loader, err := vfConfigLoader(t)
+	if err != nil {
+		return nil, err
+	}
+	settings := map[string]interface{}{
+		"base.allowed_auth_backends_for_certs": []interface{}{proto.AuthTypePassword},
+		"base.allowed_auth_backends_for_webui": []interface{}{proto.AuthTypePassword},
+	}
+	if withEd25519CA {
+		path := filepath.Join(loader.dir, "vf-c19-ed25519-ca.key")
+		if _, err := os.Stat(path); err != nil {
+			_, priv, err := ed25519.GenerateKey(rand.Reader)
+			if err != nil {
+				return nil, err
+			}
+			der, err := x509.MarshalPKCS8PrivateKey(priv)
+			if err != nil {
+				return nil, err
+			}
+			var buf bytes.Buffer
+			aw, err := armor.Encode(&buf, "PGP MESSAGE", nil)
+			if err != nil {
+				return nil, err
+			}
+			pw, err := openpgp.SymmetricallyEncrypt(aw, []byte(vfCfgPassphrase), nil, nil)
+			if err != nil {
+				return nil, err
+			}
+			if err := pem.Encode(pw, &pem.Block{Type: "PRIVATE KEY", Bytes: der}); err != nil {
+				return nil, err
+			}
+			pw.Close()
+			aw.Close()
+			if err := os.WriteFile(path, buf.Bytes(), 0600); err != nil {
+				return nil, err
+			}
+		}
+		settings["base.ed25519_ca_keyfilename"] = path
+	}
+	st, err := loader.load(settings, true)
+	if err != nil {
+		return nil, err
+	}
+	if withEd25519CA && st.Ed25519Signer == nil {
+		return nil, fmt.Errorf("the loader did not install the configured Ed25519 CA")
+	}
+	return st, nil
 }
